@@ -537,10 +537,13 @@ fn exec_script(ops: &[Op], cfg: Cfg, mut model: Option<&mut Model>) -> Outcome {
                          format!("{} returned {r_real} but changed {:?}", op.show(), diff), step);
             }
             if ok {
-                // rows the statement locked (update/delete lock every matching row, insert locks nothing)
+                // rows the statement locked (update/delete lock every matching row, insert locks the row it
+                // creates — dcf916e8)
                 let locked: Vec<Key> = match op {
                     Op::TxUpdate(_, t, c, _) | Op::TxDelete(_, t, c) | Op::Update(t, c, _) | Op::Delete(t, c) =>
                         before.get(*t).map(|img| img.iter().filter(|(id, v)| c.holds(**id, v)).map(|(id, _)| (*t, *id)).collect()).unwrap_or_default(),
+                    Op::TxInsert(_, t, _) | Op::Insert(t, _) =>
+                        r_real.strip_prefix("ok ").and_then(|x| x.parse::<u64>().ok()).map(|id| vec![(*t, id)]).unwrap_or_default(),
                     _ => vec![],
                 };
                 // exclusion oracle
@@ -555,12 +558,14 @@ fn exec_script(ops: &[Op], cfg: Cfg, mut model: Option<&mut Model>) -> Outcome {
                             hd.interfered.insert(*k);
                             meddled.insert(*k);
                             match kind {
+                                // unreachable since dcf916e8 (every written row is locked); kept so that a
+                                // regression of the fix is reported under its original class
                                 WKind::InsertOnly => {
                                     w.taint.insert(*k, "hole");
                                     out.viol(
                                         "relational_engine.tx_insert/uncommitted_insert_not_locked".into(),
-                                        format!("{} succeeded on row {k:?} inserted by open transaction h{g}: tx_insert takes no row lock, so another \
-                                                 transaction can modify or delete the uncommitted row", op.show()), step)
+                                        format!("{} succeeded on row {k:?} inserted by open transaction h{g}: the uncommitted row is not \
+                                                 locked, so another transaction can modify or delete it", op.show()), step)
                                 },
                                 WKind::Locked => {
                                     let age = w.vnow - hd.lock_time.get(k).copied().unwrap_or(0);
@@ -583,11 +588,24 @@ fn exec_script(ops: &[Op], cfg: Cfg, mut model: Option<&mut Model>) -> Outcome {
                     if let Some(hd) = w.handles.get_mut(&h) {
                         for (k, pre, _) in &diff {
                             hd.first_touch.entry(*k).or_insert_with(|| pre.clone());
-                            if matches!(op, Op::TxInsert(..)) {
-                                hd.wrote.entry(*k).or_insert(WKind::InsertOnly);
-                            }
                         }
                         for k in &locked {
+                            // a matched row counts as written even when the statement left its values unchanged
+                            // (the engine records an undo entry and takes the lock for it)
+                            let pre = before.get(k.0).and_then(|img| img.get(&k.1)).cloned();
+                            hd.first_touch.entry(*k).or_insert(pre);
+                            // modified_row_locked oracle: the writer holds the lock of every row it wrote
+                            let held = w.eng.tx_manager().row_lock_holder(&World::tname(k.0), k.1) == Some(hd.real);
+                            if matches!(op, Op::TxInsert(..)) && !held {
+                                hd.wrote.entry(*k).or_insert(WKind::InsertOnly);
+                                out.viol("relational_engine.tx_insert/uncommitted_insert_not_locked".into(),
+                                         format!("{}: the inserted row {k:?} is not locked by its transaction", op.show()), step);
+                                continue;
+                            }
+                            if !held {
+                                out.viol(format!("relational_engine.{site}/modified_row_not_locked"),
+                                         format!("{}: row {k:?} written by h{h} is not locked by it right after the statement", op.show()), step);
+                            }
                             hd.wrote.insert(*k, WKind::Locked);
                             hd.lock_time.insert(*k, w.vnow);
                         }
